@@ -58,6 +58,8 @@ struct Slot {
     /// observer subscriptions taken at arbitrary instants (incl. one at start)
     subs: Vec<Subscription>,
     incarnation: u32,
+    /// what this node's handler saw (for "only listed peers are served")
+    svc: SvcHandle,
 }
 
 fn start_watch(w: &World, node: &Node, idx: usize, inc: u32) -> EvLog {
@@ -143,10 +145,12 @@ async fn run(input: RunInput, mode: Mode) -> RunOutput {
     w.fabric.set_default_link(link.clone());
     let mut slots: Vec<Slot> = Vec::new();
     for i in 0..n {
-        let node = w.start_node(w.spec(i as u8 + 1, cfg.clone()), Svc::echo(&w)).unwrap();
+        let svc = Svc::echo(&w);
+        let svc_h = svc.handle();
+        let node = w.start_node(w.spec(i as u8 + 1, cfg.clone()), svc).unwrap();
         let log = start_watch(&w, &node, i, 0);
         let subs = vec![Subscription::new(&node.net).unwrap()];
-        slots.push(Slot { node, log, subs, incarnation: 0 });
+        slots.push(Slot { node, log, subs, incarnation: 0, svc: svc_h });
     }
     let ids: Vec<PeerId> = slots.iter().map(|s| s.node.peer_id).collect();
     let addrs: Vec<_> = slots.iter().map(|s| s.node.addr).collect();
@@ -162,6 +166,8 @@ async fn run(input: RunInput, mode: Mode) -> RunOutput {
     let mut op_log = Vec::new();
     // active network faults (to heal later)
     let mut healing: Vec<(u64, usize, usize, u8)> = Vec::new();
+    // Peer handles the application took earlier and still holds: (slot, peer, handle, taken at)
+    let mut stale: Vec<(usize, usize, anemo::Peer, u64)> = Vec::new();
     for _ in 0..n_ops {
         sleep_ms(r.gen_range(0..800)).await;
         // heal what is due
@@ -262,11 +268,14 @@ async fn run(input: RunInput, mode: Mode) -> RunOutput {
             let inc = slots[i].incarnation + 1;
             let mut spec = w.spec(i as u8 + 1, cfg.clone());
             spec.key = slots[i].node.key;
-            match w.start_node(spec, Svc::echo(&w)) {
+            let svc = Svc::echo(&w);
+            let svc_h = svc.handle();
+            stale.retain(|(si, _, _, _)| *si != i);
+            match w.start_node(spec, svc) {
                 Ok(node) => {
                     let log = start_watch(&w, &node, i, inc);
                     let subs = vec![Subscription::new(&node.net).unwrap()];
-                    slots[i] = Slot { node, log, subs, incarnation: inc };
+                    slots[i] = Slot { node, log, subs, incarnation: inc, svc: svc_h };
                 }
                 Err(e) => {
                     w.violate("address-not-rebindable-after-shutdown", format!("n{i}"), format!("{e}"));
@@ -290,7 +299,27 @@ async fn run(input: RunInput, mode: Mode) -> RunOutput {
             }
             healing.push((w.now_ms() + dur, i, j, k));
             desc = format!("{} n{i}-n{j} {}", ["partition", "blackhole", "loss-burst"][k as usize], if dur > idle_ms { "long" } else { "short" });
+        } else if kind < 84 && !stale.is_empty() {
+            // an RPC over a Peer handle taken earlier
+            let (si, sj, mut handle, taken) = stale.remove(r.gen_range(0..stale.len()));
+            let lists_now = slots[si].node.net.peers().contains(&ids[sj]);
+            let rr = tokio::time::timeout(Duration::from_secs(60), handle.rpc(Request::new(Bytes::from_static(b"stale")))).await;
+            let ok = matches!(rr, Ok(Ok(_)));
+            desc = format!("stale-rpc n{si}>n{sj}:{}", if ok { "ok" } else { "err" });
+            if mode == Mode::C09 && ok && !lists_now && !slots[si].node.net.peers().contains(&ids[sj]) {
+                // the handle's connection is not registered any more, so n{si} removed or replaced
+                // (= closed) it, or saw it closed: RPCs over it must fail
+                w.violate("rpc-over-a-removed-connection-succeeds", "stale-handle", format!("n{si} does not list n{sj}, yet an RPC over a Peer handle taken {} ms ago succeeded: the connection it belongs to was removed from the connected set without being closed", (w.now_ns() - taken) / 1_000_000));
+            }
+            if ok && lists_now {
+                stale.push((si, sj, handle, taken));
+            }
         } else if kind < 90 {
+            if stale.len() < 8 && r.gen_bool(0.6) {
+                if let Some(h) = slots[i].node.net.peer(ids[j]) {
+                    stale.push((i, j, h, w.now_ns()));
+                }
+            }
             let rr = rpc_bounded(&slots[i].node, ids[j], Request::new(Bytes::from_static(b"ping")), Duration::from_secs(60)).await;
             desc = format!("rpc n{i}>n{j}:{}", if rr.is_ok() { "ok" } else { "err" });
             if let Err(e) = &rr {
@@ -412,6 +441,38 @@ async fn run(input: RunInput, mode: Mode) -> RunOutput {
                             format!("n{a} reported LostPeer(n{b},{reason:?}) at {} ms; {} ms later (idle {idle_ms} + keep-alive {:?} + latency) n{b} still lists n{a} and n{a} has no newer connection", t / 1_000_000, bound_ns / 1_000_000, ka_ms),
                         );
                     }
+                }
+            }
+        }
+    }
+    if mode == Mode::C04 && !w.violated() {
+        // a node only serves peers it lists: every request a handler saw came from a peer that was
+        // in the connected set at that instant (a request served for an unlisted peer means a
+        // second, unregistered connection to that identity is still alive)
+        for (a, s) in slots.iter().enumerate() {
+            let log = s.log.lock().unwrap().clone();
+            for seen in s.svc.seen() {
+                let Some(p) = seen.peer else { continue };
+                let mut listed = false;
+                let mut ambiguous = false;
+                for (t, e) in &log {
+                    let (is_new, q) = match e {
+                        PeerEvent::NewPeer(q) => (true, q),
+                        PeerEvent::LostPeer(q, _) => (false, q),
+                    };
+                    if *q != p {
+                        continue;
+                    }
+                    if t.abs_diff(seen.at_ns) <= 2_000_000 {
+                        ambiguous = true;
+                    }
+                    if *t <= seen.at_ns {
+                        listed = is_new;
+                    }
+                }
+                if !listed && !ambiguous {
+                    w.violate("request-served-for-unlisted-peer", "handler", format!("n{a} served a request of {} at {} ms although it did not list that peer then: an unregistered connection to it is still alive", w.pname(&p), seen.at_ns / 1_000_000));
+                    break;
                 }
             }
         }
